@@ -160,7 +160,7 @@ def run(rep, tier, seed):
     rep.negative_cfgs.append("MC_Schema_c17_toplevel.cfg (path arguments nested in list/mapping arguments not resolved)")
     rng = random.Random(seed + 17)
     events, recipes = [], {}
-    for s in range(2500 if tier == "quick" else 80000):
+    for s in range(5000 if tier == "quick" else 80000):
         doc = gen.document(rng, depth=rng.choice([2, 3, 3]), strish=0.75)
         rr = {"rparts": gen.path_recipe(rng, doc, maxlen=2), "cond": cross_cond(rng, doc), "cast": None}
         if rng.random() < 0.45:
